@@ -27,10 +27,13 @@ RULE = ('programs of 1..12 (quick) / 1..40 (thorough) operations drawn from {mul
         'accepted and one refused step or a propagation')
 TRUSTED = ['table generators of tools/specs/c08.py: evaluation of the closed Python fragment of _can_mul_ptype/_mul_result_ptype/'
            '_propagate_ptype/constructors on every input of their finite domain; RST grid/simple table parsing']
-UNPROVEN = ['"a refused operation leaves both operands unchanged" at the level of array contents/attributes: checked by snapshots on '
-            'every refused step of the correspondence, not by a theorem (the Lean model carries only the plane type)',
+UNPROVEN = ['"a refused operation leaves both operands unchanged": the structural part is a theorem (no_write_before_guard: no multiply override '
+            'writes an attribute of either operand before delegating to Plane.multiply, whose first statement is the ptype check — regenerated '
+            'effect lists); that nothing else (aliasing through helper calls, C code) touches the operands is observed by by-value snapshots on '
+            'every refused and accepted step of the correspondence only',
             'applicability of lentil.Rotate / lentil.Flip (open known finding KF-C08-rotate-flip)']
-ASSUMPTIONS = ['programs continue after a refusal with the operands as they were (as a Python session that catches the exception)']
+ASSUMPTIONS = ['propagate_fft on a wavefront carrying fitted tilt raises NotImplementedError whatever its type (the tilt check precedes the type check: generated as Gen.codePropagateFft, theorem fft_typing); with no data at all the harness uses propagate_dft (propagate_fft needs a field to pad)',
+               'programs continue after a refusal with the operands as they were (as a Python session that catches the exception)']
 
 def _public_classes():
     """the plane classes exported by lentil/__init__.py (same source as the generated `PlaneClass`)"""
@@ -130,11 +133,19 @@ def _snap_arr(a):
 def _snap_w(w):
     return (str(w.ptype), None if w.pixelscale is None else tuple(np.asarray(w.pixelscale).tolist()), w.focal_length, w.wavelength,
             tuple(np.asarray(w.shape).tolist()) if w.shape is not None else None,
-            tuple((id(f), _snap_arr(f.data), tuple(f.offset), tuple(id(t) for t in f.tilt)) for f in w.data))
+            tuple((id(f), _snap_arr(f.data), tuple(f.offset), tuple((id(t), _tilt_state(t)) for t in f.tilt)) for f in w.data))
+
+def _tilt_state(t):
+    return tuple(sorted((k, repr(v) if not isinstance(v, np.ndarray) else _snap_arr(v)) for k, v in vars(t).items()
+                        if k in ('x', 'y', 'trace', 'dispersion', '_ptype', 'focal_length', 'angle', 'axis', 'order')))
 
 def _snap_p(p):
-    return (str(p.ptype), _snap_arr(p.amplitude), _snap_arr(p.opd), _snap_arr(p.mask), p.pixelscale, tuple(id(t) for t in p.tilt),
-            tuple(sorted((k, repr(v)) for k, v in vars(p).items() if k in ('angle', 'order', 'axis', 'focal_length', 'x', 'y'))))
+    # every instance attribute by value (arrays by bytes; _slice, trace, dispersion, _diameter, _pixelscale … included)
+    def val(v):
+        if isinstance(v, np.ndarray): return _snap_arr(v)
+        if isinstance(v, list) and all(hasattr(x, 'multiply') for x in v): return tuple(id(x) for x in v)
+        return repr(v)
+    return (str(p.ptype), tuple(sorted((k, val(v)) for k, v in vars(p).items())))
 
 def impl(case):
     lentil = vlib.import_lentil()
@@ -153,19 +164,22 @@ def impl(case):
             w.ptype = case['start']
         if mode != 'field' and len(w.data) != 0: return {'exc': 'start-not-empty'}
         if str(w.ptype) != case['start']: return {'exc': 'start'}
-        trace, mutated, ptypes = [], [], []
+        trace, mutated, ptypes, tilts, changed_ok = [], [], [], [], []
         for i, o in enumerate(case['ops']):
             w = _route(w, o.get('wvia', 'plain'))
             if o['k'] == 'prop':
                 plane = None
                 sw = _snap_w(w)
+                tilts.append(None)
                 try:
                     N = 8
                     du = w.wavelength * w.focal_length / (N * w.pixelscale[0])
-                    if o['fft'] and w.data and not any(f.tilt for f in w.data):
+                    if o['fft'] and w.data:
+                        tilts[-1] = bool(any(f.tilt for f in w.data))
                         w2 = lentil.propagate_fft(w, pixelscale=du, oversample=1)
                     else:
                         w2 = lentil.propagate_dft(w, pixelscale=du, shape=(4 + o['par'], 6), oversample=1 + o['par'] % 2)
+                    if _snap_w(w) != sw: changed_ok.append([i, 'wavefront'])
                     trace.append(str(w2.ptype)); w = w2
                 except Exception as e:
                     trace.append(type(e).__name__)
@@ -175,33 +189,35 @@ def impl(case):
             plane = _route(_mkplane(o, w), o.get('via', 'plain'))
             ptypes.append(str(plane.ptype))
             sw, sp = _snap_w(w), _snap_p(plane)
+            tilts.append(None)
             try:
                 w2 = plane.multiply(w) if i % 2 else w * plane
+                if w2 is not w and _snap_w(w) != sw: changed_ok.append([i, 'wavefront'])
+                if _snap_p(plane) != sp: changed_ok.append([i, 'plane'])
                 trace.append(str(w2.ptype)); w = w2
             except Exception as e:
                 trace.append(type(e).__name__)
                 if _snap_w(w) != sw: mutated.append([i, 'wavefront'])
                 if _snap_p(plane) != sp: mutated.append([i, 'plane'])
-        return {'trace': trace, 'mutated': mutated, 'ptypes': ptypes}
+        return {'trace': trace, 'mutated': mutated, 'ptypes': ptypes, 'tilts': tilts, 'changed_ok': changed_ok}
+
+def _stepwise(case, io):
+    """programs with explicit ptypes or with an fft applied to a tilt-carrying wavefront are compared step by step from the
+    observed state (the class machine carries neither an explicit ptype nor the tilt flag)"""
+    return any(o['k'] == 'pt' for o in case['ops']) or any(t for t in io.get('tilts', []) if t)
 
 def requests(case, io):
     if 'trace' not in io: return []
-    # class-level ops go to the class machine; explicit-ptype ops only occur in programs sent to the type machine
     reqs = []
-    if all(o['k'] != 'pt' for o in case['ops']):
+    if not _stepwise(case, io):
         reqs.append({'op': 'c08.class_run', 'start': case['start'], 'ops': [o['cls'] if o['k'] == 'cls' else 'prop' for o in case['ops']]})
-    else:
-        # replace class instances by their observed ptype: valid for table-driven classes only, so programs mixing
-        # explicit ptypes and Rotate/Flip/Image are compared step-wise below instead
-        reqs.append({'op': 'c08.mixed', 'skip': True})
-        reqs.pop()
     for c in sorted({o['cls'] for o in case['ops'] if o['k'] == 'cls'}):
         reqs.append({'op': 'c08.class_ptype', 'cls': c})
-    # step-wise comparison for programs with explicit ptypes: each step is a one-op program from the observed state
-    if any(o['k'] == 'pt' for o in case['ops']):
+    if _stepwise(case, io):
         cur = case['start']
-        for o, r in zip(case['ops'], io['trace']):
+        for o, r, t in zip(case['ops'], io['trace'], io['tilts']):
             if o['k'] == 'pt': reqs.append({'op': 'c08.type_run', 'start': cur, 'ops': [o['pt']]})
+            elif o['k'] == 'prop' and t is not None: reqs.append({'op': 'c08.fft_step', 'start': cur, 'tilt': bool(t)})
             else: reqs.append({'op': 'c08.class_run', 'start': cur, 'ops': [o['cls'] if o['k'] == 'cls' else 'prop']})
             if r in WTYPES: cur = r
     return reqs
@@ -209,8 +225,8 @@ def requests(case, io):
 def compare(case, io, mo):
     if 'trace' not in io: return f'implementation could not build the start wavefront: {io}'
     k = 0
-    has_pt = any(o['k'] == 'pt' for o in case['ops'])
-    if not has_pt:
+    step = _stepwise(case, io)
+    if not step:
         m = mo[k]; k += 1
         if not m.get('ok'): return f'model refused: {m}'
         if m['trace'] != io['trace']: return f"trace: impl {io['trace']} model {m['trace']}"
@@ -220,7 +236,7 @@ def compare(case, io, mo):
     for c in sorted(seen):
         m = mo[k]; k += 1
         if m.get('ptype') != seen[c]: return f"ptype of lentil.{c}(): impl {seen[c]} model {m.get('ptype')}"
-    if has_pt:
+    if step:
         for i, (o, r) in enumerate(zip(case['ops'], io['trace'])):
             m = mo[k]; k += 1
             if not m.get('ok'): return f'model refused: {m}'
@@ -265,6 +281,9 @@ def oracle(case, io):
         if o['k'] == 'prop':
             want = {'pupil': 'image', 'image': 'pupil'}.get(cur, 'TypeError')
             what = f"propagate_{'fft' if o['fft'] else 'dft'} from '{cur}'"
+            if io['tilts'][i]:
+                # propagate_fft does not support fitted tilt and says so before it looks at the type (ASSUMPTIONS)
+                want = 'NotImplementedError'; what += ' carrying fitted tilt'
         else:
             p = o['pt'] if o['k'] == 'pt' else _doc_ptype(o['cls'])
             want = d['mul'][(cur, p)] or 'TypeError'
@@ -275,11 +294,13 @@ def oracle(case, io):
                 continue
         if r != want: msgs.append(f'step {i}: {what} gave {r}, documented {want}')
         if r in WTYPES: cur = r
+    for i, which in io.get('changed_ok', []):
+        msgs.append(f"step {i} ({_opname(case['ops'][i])}) was accepted but changed its operand: the {which}")
     for i, which in io['mutated']:
         msgs.append(f"step {i} ({_opname(case['ops'][i])}) was refused but changed the {which}")
     if not msgs: return None
     # wrong types / wrong refusals first; steps that died with an exception class foreign to the table last
-    msgs.sort(key=lambda m: any(f'gave {e}' in m for e in ('AttributeError', 'NotImplementedError')))
+    msgs.sort(key=lambda m: any(f'gave {e}' in m for e in ('AttributeError',)))
     return msgs[0]
 
 def shrink(c):
